@@ -455,7 +455,7 @@ def run_check(prop, args, profile, rule, signature, nontrivial, crash_mode=False
                     rep.add_counts(rep.fault_counts, {'restart_dirty_disk': 1})
                     rep.distinct.add(('crash', cs['phases'][0]['crash'][0], p0.get('batches_done', 0) > 0, p1.get('expected_batches', 0) > 1))
                     # the restarted process must produce what the undisturbed run produced
-                    if not all_vio and p1.get('ranks') != census.get('ranks'):
+                    if prop == 'C08' and not all_vio and p1.get('ranks') != census.get('ranks'):
                         all_vio.append((1, ('restart-differs', 'restart-differs', {'crash': cs['phases'][0]['crash'],
                                                                                    'undisturbed_rows': len(census.get('ranks') or []), 'restart_rows': len(p1.get('ranks') or [])})))
                 else:
